@@ -1,7 +1,135 @@
-(* C20 — notified state. Only pinned statements; proofs are in Notified/NotifiedProofs.v. *)
+(* C20 — notified state: subscribers converge on the latest value, in order; one-shot
+   notification; zlink-tokio and zlink-smol behave identically.
+   Only pinned statements; proofs are in Notified/Notified{Base,Tokio,Smol,Spec,Proofs}.v.
+
+   Vocabulary (Notified/Notified.v): a scenario is a list of operations
+     Set_ v | Subscribe | Poll s | DropSub s | DropState | Notify v | DropNotifier | PollOnce
+   performed one after the other on one State, its subscriber streams and one Once pair;
+   `run I ops` is the list of their results in the model I (tokio_impl: broadcast::channel(1) +
+   BroadcastStream + oneshot under zlink-tokio's adapters; smol_impl: async-broadcast with
+   overflow / no await_active / inactive keeper + async-channel under zlink-smol's adapters);
+   `trace I ops` pairs every operation with its result; `next I ops o` is the result of o when
+   performed after ops; `received s tr` are the values handed to subscriber s, `sets_after s tr`
+   the values set since s subscribed. *)
 From ZV Require Import Notified.Notified Notified.NotifiedProofs.
 
+(* `next` is what the name says, so a statement about `next I ops o` for all ops speaks about
+   every operation of every scenario, whatever preceded and whatever follows it. *)
+Theorem C20_next :
+  forall (I : impl) (ops : list op) (o : op),
+  run I (ops ++ [o]) = run I ops ++ [next I ops o] /\
+  trace I (ops ++ [o]) = trace I ops ++ [(o, next I ops o)].
+Proof. exact next_is_run. Qed.
+Print Assumptions C20_next.
+
+Theorem C20_event_is_next :
+  forall (I : impl) (ops : list op) (o : op) (r : out), In (o, r) (trace I ops) ->
+  exists ops1 ops2, ops = ops1 ++ o :: ops2 /\ r = next I ops1 o.
+Proof. exact event_is_next. Qed.
+Print Assumptions C20_event_is_next.
+
+(* For EVERY list of operations (any interleaving, any number of sets, subscribers, drops,
+   one-shot operations in between) and every subscriber s, in both models:
+   1. what s has received is, in order, a subsequence of the values set after it subscribed;
+   2. every item it is handed carries continues = Some true;
+   3. it is told end-of-stream only after the State was dropped;
+   4. whenever a poll has nothing to hand out (Pending, or end after the drop) the last value s
+      received is the last value set since it subscribed (none received iff none set) ...
+   5. ... and that point is reached at the latest by the second of two consecutive polls, so
+      polling until Pending ends with the latest value;
+   6. a poll finds the stream gone only if it was never created or was dropped;
+   7. set returns (with get() = the value) as long as the State exists;
+   8. no operation panics and no loop of the models runs out of fuel. *)
+Theorem C20_subsequence_latest :
+  forall I : impl, I = tokio_impl \/ I = smol_impl ->
+  forall (ops : list op) (s : nat),
+  let tr := trace I ops in
+  sublist (received s tr) (sets_after s tr) /\
+  (forall v c, next I ops (Poll s) = OItem v c -> c = CTrue) /\
+  (next I ops (Poll s) = OEnd -> In (DropState, ODone) tr) /\
+  (next I ops (Poll s) = OPending \/ next I ops (Poll s) = OEnd ->
+   last_opt (received s tr) = last_opt (sets_after s tr)) /\
+  match next I (ops ++ [Poll s]) (Poll s) with OItem _ _ => False | _ => True end /\
+  (next I ops (Poll s) = OGone -> ~ In (Subscribe, OSub s) tr \/ In (DropSub s, ODone) tr) /\
+  (forall v, next I ops (Set_ v) = OSet v \/
+             (next I ops (Set_ v) = OGone /\ In (DropState, ODone) tr)) /\
+  (forall o, next I ops o <> OPanic /\ next I ops o <> OFuel).
+Proof. exact subsequence_latest_models. Qed.
+Print Assumptions C20_subsequence_latest.
+
+(* The convergence, spelled out: after ANY history, a subscriber that exists (created, not
+   dropped) reaches "nothing more to hand out" with at most two polls — Pending while the State
+   exists, end only after it was dropped — and at that point the last value it has received is
+   the last value set since it subscribed (nothing received iff nothing was set). *)
+Theorem C20_converges :
+  forall I : impl, I = tokio_impl \/ I = smol_impl ->
+  forall (ops : list op) (s : nat),
+  In (Subscribe, OSub s) (trace I ops) -> ~ In (DropSub s, ODone) (trace I ops) ->
+  exists o1 o2,
+    run I (ops ++ [Poll s; Poll s]) = run I ops ++ [o1; o2] /\
+    (o2 = OPending \/ (o2 = OEnd /\ In (DropState, ODone) (trace I ops))) /\
+    last_opt (received s (trace I (ops ++ [Poll s; Poll s]))) =
+    last_opt (sets_after s (trace I ops)).
+Proof. exact converges_models. Qed.
+Print Assumptions C20_converges.
+
+(* One-shot: for every operation list split at the first use of the notifier (pre contains no
+   Notify / DropNotifier; anything else may be interleaved anywhere): the one-shot stream is
+   Pending before; after notify(v) its next poll yields exactly one item v with
+   continues = Some false and every later poll yields end; after the notifier was dropped
+   without notifying every poll yields end, no item. *)
+Theorem C20_once :
+  forall I : impl, I = tokio_impl \/ I = smol_impl ->
+  forall (pre post : list op) (v : N), unresolved pre ->
+  once_outs (trace I pre) = repeat OPending (npolls pre) /\
+  once_outs (trace I (pre ++ Notify v :: post)) =
+    repeat OPending (npolls pre) ++
+    match npolls post with O => [] | S k => OItem v CFalse :: repeat OEnd k end /\
+  once_outs (trace I (pre ++ DropNotifier :: post)) =
+    repeat OPending (npolls pre) ++ repeat OEnd (npolls post).
+Proof. exact once_models. Qed.
+Print Assumptions C20_once.
+
+(* The two models are observationally equal: on every operation list every operation has the
+   same result (so every subscriber sees the same items, pendings and ends at the same polls). *)
+Theorem C20_same :
+  forall ops : list op, run tokio_impl ops = run smol_impl ops.
+Proof. exact same_outputs. Qed.
+Print Assumptions C20_same.
+
+(* Both are, observably, a latest-value cell (abs_impl: a counter of published values, the
+   latest value, and per subscriber the count it has seen). *)
+Theorem C20_latest_value_cell :
+  forall ops : list op,
+  run tokio_impl ops = run abs_impl ops /\ run smol_impl ops = run abs_impl ops.
+Proof. exact latest_value_cell. Qed.
+Print Assumptions C20_latest_value_cell.
+
+(* Non-vacuity: a scenario with two subscribers created at different points, a lagging one
+   (two sets between polls: Lagged / Overflowed is skipped), a dropped one, the State dropped
+   with a value still unread, and the one-shot used in between. *)
 Example C20_nonvacuous :
-  run tokio_impl [Subscribe; Set_ 1; Set_ 2; Poll 0; Poll 0]
-  = [OSub 0; OSet 1; OSet 2; OItem 2 CTrue; OPending]%N.
-Proof. vm_compute. reflexivity. Qed.
+  let ops := [Set_ 1; Subscribe; Poll 0; Set_ 2; Subscribe; Set_ 3; Set_ 4; PollOnce; Poll 0;
+              Poll 0; Notify 9; Poll 1; DropSub 1; Set_ 5; PollOnce; DropState; Poll 0; Poll 0;
+              PollOnce; Poll 1]%N in
+  run tokio_impl ops =
+    [OSet 1; OSub 0; OPending; OSet 2; OSub 1; OSet 3; OSet 4; OPending; OItem 4 CTrue;
+     OPending; ODone; OItem 4 CTrue; ODone; OSet 5; OItem 9 CFalse; ODone; OItem 5 CTrue; OEnd;
+     OEnd; OGone]%N /\
+  run smol_impl ops = run tokio_impl ops /\
+  received 0 (trace tokio_impl ops) = [4; 5]%N /\
+  sets_after 0 (trace tokio_impl ops) = [2; 3; 4; 5]%N /\
+  sets_after 1 (trace tokio_impl ops) = [3; 4; 5]%N /\
+  unresolved (firstn 10 ops).
+Proof.
+  cbv zeta. repeat split; try (vm_compute; reflexivity).
+  intros o H. cbn in H. repeat (destruct H as [<-|H]; [exact I|]). destruct H.
+Qed.
+
+(* the notifier dropped without notifying: end, no item *)
+Example C20_once_dropped_nonvacuous :
+  run smol_impl [PollOnce; DropNotifier; PollOnce; PollOnce; Notify 3%N] =
+    [OPending; ODone; OEnd; OEnd; OGone] /\
+  run tokio_impl [PollOnce; DropNotifier; PollOnce; PollOnce; Notify 3%N] =
+    [OPending; ODone; OEnd; OEnd; OGone].
+Proof. split; vm_compute; reflexivity. Qed.
